@@ -239,7 +239,20 @@ def eval_case_inner(ctx, exe, case, status_of, deep=True):
     elif d3 != d2:
         e3 = raw_entities(d3)
         diff = [(k, p) for k in e2 for p in sorted(set(e2[k]) | set(e3.get(k, {}))) if e2[k].get(p) != e3.get(k, {}).get(p)]
-        res["problems"].append(("not-fixed", f"dump text still changes in the second cycle: {diff[:5] or 'layout'}"))
+        def ulp_jitter(k, p):
+            try:
+                u, v = float(e2[k][p]), float(e3[k][p])
+            except (KeyError, ValueError):
+                return False
+            return abs(u - v) <= 1e-14 * max(abs(u), abs(v))
+        if diff and all(under_tied(k, p) and "/totals/" in p and ulp_jitter(k, p) for k, p in diff):
+            # update_min/kin_exchange multiplies the tied component by (reactant amount × proportion) / (site total) at every read; the
+            # quotient is 1 ± 1 ulp for a few cycles, which the 17-digit text shows
+            k, p = diff[0]
+            res["sig"].append(("tied-exchanger-rederived", f"third dump differs from the second in the last place (rescaled at every read): "
+                               f"{k} {p}: {e2[k].get(p)} → {e3[k].get(p)}"))
+        else:
+            res["problems"].append(("not-fixed", f"dump text still changes in the second cycle: {diff[:5] or 'layout'}"))
     # model correspondence: where first and second dump differ, the model must call the key dropped
     rederived = False
     if d2 != d1:
